@@ -1,5 +1,5 @@
 import os
-ENABLED = os.environ.get("C09_DEV") == "1"   # flipped to True when finished
+ENABLED = True
 GEN = ("Trusted: Lean kernel (axioms propext/Classical.choice/Quot.sound only, audited each run), the hand-written model's fidelity as "
        "validated by the correspondence run, the Go harness; crypto primitives, math/big and the Go runtime are modelled not verified.")
 CFG = {
